@@ -383,7 +383,11 @@ pub fn generate_c10(corpus: &[Project], seed: u64, index: u64, k: usize) -> Run 
                 v
             }
         };
-        variants.push(Variant { hash_seed, preregister, repeat: i % 3 == 0, diag_first: i % 5 == 4 });
+        variants.push(Variant { hash_seed, preregister, repeat: i % 3 == 0, diag_first: i % 5 == 4, root: None });
+    }
+    // one variant builds the same project checked out somewhere else
+    if k >= 6 {
+        variants[5].root = Some(["/home/ci/builds/4711/app", "/srv/x", "/p2"][rng.below(3)].to_string());
     }
     // one pair that differs in registration order only, one pair in hash keys only
     if k >= 4 {
@@ -600,6 +604,21 @@ pub fn synthetic_project(seed: u64) -> Project {
             _ => extra_decls.push(format!("export type Mapped = {} extends object ? \"obj\" : \"other\";", names[a])),
         }
         extra_keys.push("Mapped: Mapped".into());
+    }
+    // many JSDoc blocks in one file, some doubled (the comment map is a concurrent map whose
+    // iteration order follows the CPU count)
+    if rng.chance(1, 12) {
+        let n_doc = rng.range(22, 45);
+        for d in 0..n_doc {
+            if rng.chance(1, 4) {
+                extra_decls.push(format!("/** first block of Doc{} */", d));
+            }
+            extra_decls.push(format!("/** description of Doc{} */\nexport type Doc{} = {{ d{}: string }};", d, d, d));
+        }
+        extra_decls.push(format!("export type AllDocs = {{ first: Doc0; last: Doc{}; mid: Doc{} }};", n_doc - 1, n_doc / 2));
+        extra_keys.push("AllDocs: AllDocs".into());
+        extra_keys.push(format!("DocLast: Doc{}", n_doc - 1));
+        extra_keys.push("Doc1: Doc1".into());
     }
     // a package imported through a bare specifier (node_modules lookup walks up the directories)
     let bare_pkg = rng.chance(1, 5);
